@@ -106,6 +106,12 @@ def shards(tier, seed):
     return out
 
 
+def opt_shards(tier):
+    """Under python -O: every sequence of length <= 3 over the core alphabet."""
+    m = len(R.CORE12)
+    return [{"part": "seq-core", "alpha": "core", "prefix": [a, b], "L": 3, "minlen": 0} for a in range(m) for b in range(m)]
+
+
 PUMP_FILLERS = ["unknown", "fullB", "idNoPin", "law"]
 PUMP_CORE_QUICK = ["fullA0", "fullA", "fullA3", "fullB", "fullP", "shortAmb", "supraFoo", "supraBar", "refJones", "idNoPin"]
 PUMP_LENGTHS = {"quick": [100, 130], "thorough": [64, 100, 130, 257, 520]}
